@@ -79,6 +79,15 @@ def fixed_literals():
         out.append("1" + "0" * k)
         out.append("9" * k)
         out.append("0." + "0" * (k - 1) + "1e%d" % (k - 10))
+    # coefficient * 10^exponent exactly at the i128 boundary: floor(M / 10^k) + {-1, 0, 1, 2} with exponent k
+    for k in range(1, 39):
+        for d in (-1, 0, 1, 2):
+            c = M // P10[k] + d
+            if c > 0:
+                out.append("%de%d" % (c, k))
+                cs = str(c)
+                if len(cs) > 1 and k < 38:
+                    out.append("%s.%se%d" % (cs[0], cs[1:], k + len(cs) - 1))
     for d in range(-2, 3):
         out.append(str((1 << 127) + d))
         out.append(str((1 << 128) + 10 ** 38 + d))
@@ -92,6 +101,7 @@ def literals(rng, n):
     for b in base:
         lits.append(("", b))
         lits.append((rng.choice(("-", "- ", "+", "+ ")), b))
+        lits.append(("-", b))
     while len(lits) < n:
         lits.append((rng.choice(("", "", "-", "- ", "+", "+ ")), rust_literal(rng)))
     # (text inside Dec!(..), text handed to from_str)
@@ -133,8 +143,29 @@ ERR_LINE = re.compile(r"src/bin/(\w+)\.rs:(\d+):\d+: error(?:\[\w+\])?: (.*)")
 
 
 def run_programs(lits, fs_results, budget_s):
+    """Build and run the generated programs in the dev AND the release profile (the proc-macro itself is compiled
+    with the profile's overflow-check setting)."""
+    allv = []
+    allstats = {}
+    for release in (False, True):
+        viol, stats = run_programs_profile(lits, fs_results, budget_s, release)
+        if viol is None:
+            return None, stats
+        for v in viol:
+            v["profile"] = "release" if release else "dev"
+        allv += viol
+        for k, val in stats.items():
+            if isinstance(val, int):
+                allstats[k] = (allstats.get(k, 0) + val) if k == "programs" else val
+            else:
+                allstats[k + ("_release" if release else "")] = val
+    return allv, allstats
+
+
+def run_programs_profile(lits, fs_results, budget_s, release):
     """lits: [(macro_text, fromstr_text)], fs_results: list of Resp. -> (violations, stats)"""
     write_crate()
+    prof = ["--release"] if release else []
     acc = [i for i, r in enumerate(fs_results) if r.kind == "V"]
     rej = [i for i, r in enumerate(fs_results) if r.kind != "V"]
     viol = []
@@ -147,7 +178,7 @@ def run_programs(lits, fs_results, budget_s):
             for i in cur:
                 f.write("    (\"x\", Dec!(%s)),\n" % lits[i][0])
             f.write(ACCEPT_TAIL)
-        p = cargo(["build", "--message-format=short", "--bin", "accept"], budget_s)
+        p = cargo(["build", "--message-format=short", "--bin", "accept"] + prof, budget_s)
         stats["programs"] += 1
         if p.returncode == 0:
             break
@@ -164,7 +195,7 @@ def run_programs(lits, fs_results, budget_s):
                          "why": "Dec! fails to compile although from_str succeeds"})
     else:
         return None, {"error": "accept program still failing after removing offending literals"}
-    exe = os.path.join(TARGET, "debug", "accept")
+    exe = os.path.join(TARGET, "release" if release else "debug", "accept")
     p = subprocess.run([exe], stdout=subprocess.PIPE, stderr=subprocess.PIPE, text=True, timeout=120)
     if p.returncode != 0:
         return None, {"error": "accept program crashed: " + p.stderr[-500:]}
@@ -185,7 +216,7 @@ def run_programs(lits, fs_results, budget_s):
             f.write("const _: Decimal = Dec!(%s);\n" % lits[i][0])
         f.write("fn main() {}\n")
     if rej:
-        p = cargo(["build", "--message-format=short", "--bin", "reject"], budget_s)
+        p = cargo(["build", "--message-format=short", "--bin", "reject"] + prof, budget_s)
         stats["programs"] += 1
         err_lines = {}
         other = []
